@@ -116,7 +116,7 @@ def _obs(c):
         return "(OLenses [%s])" % "; ".join(od.clobs(x) for x in o["lenses"])
     cb = r["combo"]
     if cb in ("iso", "morphism"):
-        return "(OMorph %s %s %s %s %s %s %s)" % (oc.hexs(o["before_t"]), vlib.blit(o["pf"]), vlib.blit(o["pi"]),
+        return "(OMorph %s %s %s %s %s %s %s %s)" % (oc.hexs(o["before_t"]), oc.hexs(o["before_s2"]), vlib.blit(o["pf"]), vlib.blit(o["pi"]),
                                                   _diff(o["ds1"]), _diff(o["dt1"]), _diff(o["ds2"]), _diff(o["dt2"]))
     if cb == "mapkey":
         return "(OMap %s %s %s [%s])" % (vlib.zlit(o["get0"]), vlib.zlit(o["get1"]), vlib.blit(o["same"]),
